@@ -18,6 +18,7 @@ import shutil
 import signal
 import sys
 import time
+import tempfile
 from html.parser import HTMLParser
 
 VERIF = os.path.dirname(os.path.dirname(os.path.abspath(__file__)))
@@ -848,7 +849,7 @@ def _render_record(case):
     import plasTeX
     assert os.path.abspath(plasTeX.__file__).startswith(os.path.abspath(REPO) + os.sep), plasTeX.__file__
     sys.setrecursionlimit(6000)
-    base = '/tmp/verif-render/%d' % os.getpid()
+    base = os.path.join(tempfile.gettempdir(), 'verif-render', '%d' % os.getpid())
     rec = {'status': 'ok'}
     try:
         try:
@@ -874,7 +875,7 @@ def _render_record(case):
 def _second_render(case):
     sys.path.insert(0, REPO) if REPO not in sys.path else None
     sys.setrecursionlimit(6000)
-    outdir = '/tmp/verif-render/%d/b' % os.getpid()
+    outdir = os.path.join(tempfile.gettempdir(), 'verif-render', '%d' % os.getpid(), 'b')
     try:
         try:
             _one_render(case, outdir, False)
